@@ -288,9 +288,10 @@ impl ECMAScriptDatamodel {
 
     fn assign_internal(&mut self, left_expr: &str, right_expr: &str, allow_undefined: bool) -> bool {
         let exp = format!("{}={}", left_expr, right_expr);
-        if allow_undefined && self.strict_mode {
-            self.context.strict(false);
-        }
+        // An assignment to a location that is not declared or not writable (system variables) has to
+        // fail with error.execution also if scripts run in non-strict mode, where ECMAScript would
+        // silently ignore the write or create a new global.
+        self.context.strict(!allow_undefined);
         let r = match self.eval(&str_to_source(exp.as_str())) {
             Ok(_) => true,
             Err(error) => {
@@ -311,9 +312,7 @@ impl ECMAScriptDatamodel {
                 false
             }
         };
-        if allow_undefined && self.strict_mode {
-            self.context.strict(true);
-        }
+        self.context.strict(self.strict_mode);
         r
     }
 
